@@ -295,4 +295,9 @@ PROPS["C20"] = {
     "level_note": "partial: the leader-side bookkeeping is a small hand-written model of restoreUserSnapshot; its tie is the H3 restore scenario only (no stepping).",
 }
 
-HOOK_COMMITS = ["dfecdf5"]
+PROPS["C17"]["engines"].append(scenario("restore", "C17", 300, 5000))
+PROPS["C18"]["engines"] += [handlers("C18", 4000, 80000), universe("C18", 4000, 80000)]
+PROPS["C18"]["assumptions"].append(SV_NOTE)
+PROPS["C20"]["engines"].append({"engine": "compaction", "bin": "h1", "quick": ["-n", "20000"], "thorough": ["-n", "400000"]})
+
+HOOK_COMMITS = ["dfecdf5", "9779dc0"]
